@@ -55,6 +55,24 @@ theorem abs_refines {s : St K V} (h : Inv s) (op : Op K V) (hv : Op.valid op) :
   refine ⟨fun v => ?_, h2⟩
   rw [← h1.inv.rep_absLog.groups v, h1.groups v]
 
+/-- **C15.5b** `≈` loses nothing the property talks about: two abstract maps with the same grouping
+    bind every key to the same value (and by definition give every value the same key tuple) -/
+theorem equiv_same_map {l l' : Log K V} (hn : (l.map (·.1)).Nodup) (hn' : (l'.map (·.1)).Nodup)
+    (h : Log.equiv l l') (k : K) : specGet l k = specGet l' k := by
+  unfold specGet
+  have key : ∀ {a b : Log K V}, (b.map (·.1)).Nodup → Log.equiv a b → ∀ v, dget a k = some v → dget b k = some v := by
+    intro a b hb hab v hv
+    have : k ∈ keysOf b v := by rw [← hab v]; exact mem_keysOf.mpr (dget_some_mem hv)
+    exact dget_of_mem_nodup hb (mem_keysOf.mp this)
+  cases h1 : dget l k with
+  | some v => exact (key hn' h v h1).symm
+  | none =>
+    cases h2 : dget l' k with
+    | none => rfl
+    | some v =>
+      have := key hn (fun w => (h w).symm) v h2
+      rw [h1] at this; cases this
+
 /-- **C15.6** whole histories: same results at every step, final state represents the final map -/
 theorem run_refines (ops : List (Op K V)) (hv : ∀ op ∈ ops, Op.valid op) :
     Rep (run (St.empty : St K V) ops).1 (specRun [] ops).1 ∧
@@ -316,6 +334,10 @@ example : Rep (run (St.empty : St Nat Nat) [.set [1, 2] 3, .set [4] 3, .set [2] 
   (run_refines _ (by intro op h; simp at h; rcases h with rfl | rfl | rfl | rfl <;> simp [Op.valid])).1
 example : (run (St.empty : St Nat Nat) [.set [1, 2] 3, .set [4] 3, .set [2] 7, .del 1]).1.store
     = [([2], 7), ([4], 3)] := by decide
+/-- `≈` relates genuinely different logs (hypothesis of C15.5b) -/
+example : Log.equiv ([(1, 3), (2, 7), (4, 3)] : Log Nat Nat) [(2, 7), (1, 3), (4, 3)] := by
+  intro v
+  by_cases h3 : (3 : Nat) = v <;> by_cases h7 : (7 : Nat) = v <;> first | omega | simp [keysOf, h3, h7]
 /-- hypotheses of C15.16 / C15.18 / C15.19 on reachable states -/
 example : sdDefault (sdRun (SD.empty : SD Nat Nat) [.set [1] 10, .set [2] 20, .del 1]).1 = none := by decide
 example : sdDefault (sdRun (SD.empty : SD Nat Nat) [.set [1, 2] 10, .set [3] 20]).1 = some 10 ∧
